@@ -299,6 +299,9 @@ def run(tier='quick'):
                         'the down-sampling idiom size() * (2i+1) / (2E) with i < E)', floor=30)
     U3 = chk.rule('U3', 'an iterator returned by find / find_if is dereferenced or used in +/- arithmetic only '
                         'under a dominating comparison with end() / begin()', floor=3)
+    U5 = chk.rule('U5', 'a local aggregate declared without initialiser (T x;) whose record has scalar members '
+                        'lacking default member initialisers has every such member assigned on every path '
+                        'before the object is used as a whole (passed, returned, copied, encoded)', floor=3)
     U6 = chk.rule('U6', 'every integer / and % has a divisor proved non-zero after any conversion to integer', floor=15)
     U7 = chk.rule('U7', 'every throw expression throws a type derived from std::exception and no noexcept '
                         'function contains a throw', floor=150)
@@ -451,6 +454,7 @@ def run(tier='quick'):
                     iter_vars[(f.key, '#%s:%s' % (n.get('id'), n.get('name')))] = nm
         guards.walk_with_facts(f, visit)
 
+    _uninitialised(prog, cg, chk, U5)
     _throws(prog, cg, chk, U7)
     _handle_contract(prog, cg, eff, chk, U8)
     _recursion(prog, cg, chk, U9)
@@ -617,3 +621,74 @@ def _callers_min_size(prog, func, cont):
     if not mins:
         return None
     return min(mins), len(mins)
+
+
+SCALAR = re.compile(r'^(const )?(bool|char|short|int|long|unsigned|signed|float|double|u?int\d+_t|u?int_least\d+_t|size_t|'
+                    r'long long|unsigned long long|unsigned long|unsigned int|unsigned char|std::byte)\b')
+
+
+def _scalar_fields_without_init(prog, rec):
+    out = []
+    for f in rec.fields:
+        t = (f.get('dtype') or f.get('type') or '').strip()
+        init = [x for x in children(f) if not x['kind'].endswith('Attr') and not x['kind'].endswith('Comment')]
+        if init:
+            continue
+        if SCALAR.match(t) or t.endswith('*') or t in prog.enums:
+            out.append(f.get('name'))
+    return out
+
+
+def _uninitialised(prog, cg, chk, U5):
+    for f in _functions(prog):
+        cands = {}
+        for n in walk(f.body):
+            if n.get('kind') != 'VarDecl' or n.get('init') != 'call':
+                continue
+            rec = cg.record_of_type(n.get('type'))
+            if not rec or rec not in prog.records or (n.get('type') or '').rstrip().endswith(('&', '*')):
+                continue
+            r = prog.records[rec]
+            # aggregates only: no user-provided constructor
+            if any(m.get('kind') == 'CXXConstructorDecl' and not m.get('isImplicit') for m in r.methods):
+                continue
+            init = [x for x in children(n) if not x['kind'].endswith('Attr') and not x['kind'].endswith('Comment')]
+            if not init or strip(init[-1]).get('kind') != 'CXXConstructExpr' or children(strip(init[-1])):
+                continue
+            fields = _scalar_fields_without_init(prog, r)
+            if fields:
+                cands['#%s:%s' % (n.get('id'), n.get('name'))] = (n, rec, fields)
+        if not cands:
+            continue
+        reported = set()
+        member_bases = set()
+        for x in walk(f.body):
+            if x.get('kind') == 'MemberExpr' and children(x):
+                b = strip(children(x)[0])
+                if b.get('kind') == 'DeclRefExpr':
+                    member_bases.add(id(b))
+
+        def visit(n, facts, func):
+            if n.get('kind') != 'DeclRefExpr' or id(n) in member_bases:
+                return
+            p = guards.canon(n)
+            if p not in cands or p in reported:
+                return
+            decl, rec, fields = cands[p]
+            if ('A:' + p) in facts:
+                return
+            missing = [fl for fl in fields if ('A:%s.%s' % (p, fl)) not in facts]
+            reported.add(p)
+            inst = '%s: %s %s used as a whole at %s' % (_short(func.qualname), rec.split('::')[-1], decl.get('name'), locstr(n))
+            if missing:
+                chk.violation(U5, '%s|%s.%s' % (_short(func.qualname), decl.get('name'), ','.join(missing)), locstr(n),
+                              '%s is declared without initialiser and its member(s) %s (no default member '
+                              'initialiser) are not assigned on every path before the object is used here: an '
+                              'indeterminate value is read' % (inst, missing))
+            else:
+                chk.ok(U5, inst + ': all scalar members assigned before', locstr(decl))
+        guards.walk_with_facts(f, visit)
+        for p, (decl, rec, fields) in cands.items():
+            if p not in reported:
+                chk.ok(U5, '%s: %s %s never used as a whole before its members are set' % (
+                    _short(f.qualname), rec.split('::')[-1], decl.get('name')), locstr(decl))
